@@ -125,6 +125,17 @@ theorem detect_correct (k : Kind) (hk : k ≠ .full) (s : Bytes) :
     detect cfg (header cfg k ++ s) = .ok (k, s) := by
   rw [cfg_is_spec]; exact detect_header k hk s
 
+/-- **Explicit protocol** (`transport.ListenCodec`): `ReadHeader` accepts what `WriteHeader` wrote and
+hands the codec exactly what follows; anything else of the same length is a header mismatch. -/
+theorem readHeader_correct (k : Kind) (s : Bytes) : readHeader cfg k (header cfg k ++ s) = .ok s :=
+  readHeader_header cfg k s
+
+theorem readHeader_rejects (k : Kind) (s : Bytes) (hlen : (header cfg k).length ≤ s.length)
+    (hne : s.take (header cfg k).length ≠ header cfg k) : readHeader cfg k s = .error .headerMismatch := by
+  unfold readHeader
+  have : ¬ s.length < (header cfg k).length := by omega
+  simp [this, hne]
+
 /-- **Detection, full protocol** (no header): the first frame of a valid payload starts with none of
 the reserved tags, is detected as `full`, and nothing of it is consumed. -/
 theorem detect_full (crc : Bytes → Nat) (seq : Int) (rnd p rest : Bytes) (hp : Valid p) :
